@@ -10,6 +10,7 @@ import (
 	"go/types"
 	"math/big"
 	"os"
+	"sort"
 	"strings"
 
 	"golang.org/x/tools/go/ssa"
@@ -56,14 +57,26 @@ func (u *Unit) enterLoop(fr *Frame, li *loopInfo, st *State) *State {
 	u.loopCtxs[li] = &loopCtx{entry: st.clone()}
 	for _, inv := range invs {
 		g := u.evalClause(fr, st, inv, li)
+		u.curWithout = inv.without
 		u.oblige("inv-init", fmt.Sprintf("L%d-%s", li.ordinal, labelOr(inv, invs)), st, g, token.NoPos, inv.text)
+		u.curWithout = nil
 	}
 	if g := u.autoRangeInv(fr, li, st); g != nil {
 		u.oblige("inv-init", fmt.Sprintf("L%d-rangeindex", li.ordinal), st, g, token.NoPos, "-1 <= hidden range index < len (engine-generated)")
 	}
 	// havoc
 	h := st.clone()
+	type retyped struct {
+		v *Term
+		t types.Type
+	}
+	var retype []retyped
+	var modCells []any
 	for c := range li.modCells {
+		modCells = append(modCells, c)
+	}
+	sort.Slice(modCells, func(i, j int) bool { return cellName(modCells[i]) < cellName(modCells[j]) })
+	for _, c := range modCells {
 		old, ok := h.cells[c]
 		if !ok {
 			continue
@@ -78,27 +91,41 @@ func (u *Unit) enterLoop(fr *Frame, li *loopInfo, st *State) *State {
 				typ = cc.typ
 			}
 			nv := tb.Fresh("L"+fmt.Sprint(li.ordinal)+"_"+cellName(c), ov.sort)
-			if typ != nil {
-				u.assumeTyping(st.guard, nv, typ)
-			}
 			h.cells[c] = nv
+			if typ != nil {
+				retype = append(retype, retyped{nv, typ})
+			}
 		default:
 			// executor-level value (closure, pointer): must be re-assigned before use
 			h.cells[c] = undefVal{}
 		}
 	}
+	allocBefore := u.allocSet(st)
+	li.modHeap[allocHeapKey] = SArr(SInt, SBool) // loops may allocate
 	if li.modAll {
 		u.epochs++
 		h.epoch = u.epochs
 		h.heap = map[string]*Term{}
 	} else {
-		for k, srt := range li.modHeap {
+		var hks []string
+		for k := range li.modHeap {
+			hks = append(hks, k)
+		}
+		sort.Strings(hks)
+		for _, k := range hks {
+			srt := li.modHeap[k]
 			u.heapSorts[k] = srt
 			h.heap[k] = tb.Fresh(fmt.Sprintf("L%d_%s", li.ordinal, k), srt)
 		}
 	}
+	u.allocGrows(h.guard, allocBefore, u.allocSet(h))
+	for _, rt := range retype {
+		u.assumeTyping(h.guard, rt.v, rt.t, h)
+	}
 	for _, inv := range invs {
+		u.curTag = fmt.Sprintf("L%d-%s", li.ordinal, labelOr(inv, invs))
 		u.assume(h.guard, u.evalClause(fr, h, inv, li))
+		u.curTag = ""
 	}
 	if g := u.autoRangeInv(fr, li, h); g != nil {
 		u.assume(h.guard, g)
@@ -137,7 +164,9 @@ func (u *Unit) closeLoop(fr *Frame, li *loopInfo, st *State, from *ssa.BasicBloc
 	invs := u.loopClauses(fr, li, "invariant")
 	for _, inv := range invs {
 		g := u.evalClause(fr, st, inv, li)
+		u.curWithout = inv.without
 		u.oblige("inv-preserve", fmt.Sprintf("L%d-%s", li.ordinal, labelOr(inv, invs)), st, g, token.NoPos, inv.text)
+		u.curWithout = nil
 	}
 	if g := u.autoRangeInv(fr, li, st); g != nil {
 		u.oblige("inv-preserve", fmt.Sprintf("L%d-rangeindex", li.ordinal), st, g, token.NoPos, "-1 <= hidden range index < len (engine-generated)")
@@ -234,9 +263,11 @@ func (u *Unit) callWith(fr *Frame, st *State, c *ssa.CallCommon, fv Val, args []
 // havocCall: results unconstrained, every heap location unconstrained.
 func (u *Unit) havocCall(st *State, c *ssa.CallCommon, why string) Val {
 	u.noteHavoc(why)
+	allocBefore := u.allocSet(st)
 	u.epochs++
 	st.epoch = u.epochs
 	st.heap = map[string]*Term{}
+	u.allocGrows(st.guard, allocBefore, u.allocSet(st))
 	for cell := range u.ghosts {
 		if old, ok := st.cells[cell].(*Term); ok {
 			st.cells[cell] = u.freshOfType("havoc_"+cell.name, cell.typ, st.guard)
@@ -505,6 +536,16 @@ func (u *Unit) applyContract(fr *Frame, st *State, con *Contract, fn *ssa.Functi
 	// frame: havoc what the callee may modify
 	pre := st.clone()
 	u.havocModifies(env, st, con, name)
+	for _, rt := range ci.rtypes {
+		if mayHoldRefs(rt, 0) {
+			// the callee may have allocated what it returns
+			before := u.allocSet(st)
+			after := u.m.tb.Fresh("AL_"+sanitizeLabel(name), SArr(SInt, SBool))
+			u.heapSet(st, allocHeapKey, after)
+			u.allocGrows(st.guard, before, after)
+			break
+		}
+	}
 	// results
 	penv := &Env{u: u, st: st, vars: map[string]Val{}, old: &Env{u: u, st: pre, vars: env.vars}, assuming: true}
 	for k, v := range env.vars {
@@ -529,6 +570,28 @@ func (u *Unit) applyContract(fr *Frame, st *State, con *Contract, fn *ssa.Functi
 		return results[0]
 	}
 	return Tuple(results)
+}
+
+func mayHoldRefs(t types.Type, depth int) bool {
+	if depth > 4 {
+		return true
+	}
+	switch tt := t.Underlying().(type) {
+	case *types.Basic:
+		return false
+	case *types.Struct:
+		for i := 0; i < tt.NumFields(); i++ {
+			if mayHoldRefs(tt.Field(i).Type(), depth+1) {
+				return true
+			}
+		}
+		return false
+	case *types.Array:
+		return mayHoldRefs(tt.Elem(), depth+1)
+	case *types.Interface:
+		return false // interface payloads are opaque
+	}
+	return true
 }
 
 func sanitizeLabel(s string) string {
@@ -565,9 +628,11 @@ func (u *Unit) havocLoc(env *Env, st *State, e ast.Expr, name string) {
 	tb := m.tb
 	e = ast.Unparen(e)
 	if id, ok := e.(*ast.Ident); ok && id.Name == "everything" {
+		allocBefore := u.allocSet(st)
 		u.epochs++
 		st.epoch = u.epochs
 		st.heap = map[string]*Term{}
+		u.allocGrows(st.guard, allocBefore, u.allocSet(st))
 		return
 	}
 	switch x := e.(type) {
